@@ -57,6 +57,11 @@ for e in [A(), B(), C(), A, 1, 'one', 2.0]:
     e
 y
 D().m
+if 0:
+    w = 'never'
+else:
+    w = 1
+w
 '''
 DICTS = '''d1 = {1: 'a', 'a': 1, "b": 2, 'long key': 0}
 d2 = {1.0: 'b', 3: 3, "a": 4, 'b"c': 5, 2: 0, "long key": 1}
@@ -115,7 +120,8 @@ def sources(root):
     c = HIER + 'x.'
     add('hier', c, [
         q('infer', c, 'x.m(1)'), q('infer', c, 'y\n'), q('infer', c, 'r = '), q('infer', c, 'v = '), q('infer', c, '    e\n', 4),
-        q('infer', c, 'res = '), q('goto', c, 'x.m(1)', 2), q('help', c, 'x.m(1)', 2), q('get_signatures', c, 'x.m(1)', 4),
+        q('infer', c, 'res = '), q('infer', c, '\nw\n', 1),
+        q('goto', c, 'x.m(1)', 2), q('help', c, 'x.m(1)', 2), q('get_signatures', c, 'x.m(1)', 4),
         q('goto', c, 'x.shared', 2), q('goto', c, 'D().m', 4), q('goto', c, 'def m(self, *args)', 4),
         q('complete', c, 'x.', 2, nth=c.count('x.') - 1), q('get_references', c, 'shared = 1'),
         q('get_references', c, 'def m(self, a)', 4, scope='file'), q('get_context', c, 'return [1]'),
@@ -205,9 +211,10 @@ def ask(script, query):
 def worker(repo, payload_path, perturb):
     """child process: perturb the heap, then run every session = the listed queries on ONE new Script"""
     keep = [__import__(m) for m in EXTRA_MODULES[:perturb % (len(EXTRA_MODULES) + 1)]]
-    keep.append([object() for _ in range(perturb * 3571)])
-    keep.append([bytearray(17 + (i * perturb) % 301) for i in range(perturb * 97)])
-    keep.append({str(i): [i] for i in range(perturb * 1013)})
+    junk = [[object(), [i], {i: i}, (i,) * (i % 9), 'x' * (i % 70), bytearray(i % 300), type('T', (), {})()]
+            for i in range(perturb * 1500)]
+    keep.append(junk[::perturb % 5 + 2])        # free most of it again: holes of many sizes in the allocator's pools
+    del junk
     with open(payload_path) as f:
         payload = json.load(f)
     import jedi
@@ -229,10 +236,15 @@ def sessions_of(src, rng, quick):
     ss = [[i] for i in range(nq)]                                   # a fresh Script per query: the reference
     real = nq - 3
     if real <= 4:               # every order of the non-failing queries, then the first one again
-        ss += [list(p) + [p[0]] for p in itertools.permutations(range(real))][:24 if quick else 120]
+        ss += [list(p) + [p[0]] for p in itertools.permutations(range(real))][::3 if quick and real > 3 else 1]
     for _ in range(1 if real <= 4 else (4 if quick else 24)):       # first, up to 8 others with repetitions, first again
         first = rng.randrange(real)
         ss.append([first] + [rng.randrange(nq) for _ in range(rng.randint(1, 8))] + [first])
+    if real > 4:                # after one query of each kind (also a failing one): every query of the program
+        kinds = {}
+        for i, qu in enumerate(src['queries']):
+            kinds.setdefault(qu[0] if i < real else 'failing', i)
+        ss += [[i] + list(range(real)) for k, i in sorted(kinds.items()) if k not in ('infer', 'goto', 'get_context')]
     if src['name'] == 'helper':                                     # 12 call sites of one function in a row, both ways
         ss += [list(range(12)) + [0], list(range(11, -1, -1)) + [11], [0] * 9]
     return ss
@@ -312,21 +324,22 @@ def run(repo, seed, tier):
                         report(LBL_PROC, src, session, pos, 'PYTHONHASHSEED=%d perturbation=%d: %s\nPYTHONHASHSEED=%d '
                                'perturbation=%d: %s' % (variants[0] + (a,) + v + (b,)))
                         break
-            for v in variants:
-                seen = {}
+            for v in variants:                  # one Script: repeated answers, and fresh-Script answers
+                seen, bad = {}, None
                 for pos, qi in enumerate(session[:upto[v]]):
                     first = seen.setdefault(qi, pos)
+                    fresh = answers[(g, v)][fresh_at[(si, qi)]][0] if len(session) > 1 and (si, qi) in fresh_at else got[v][pos]
                     if got[v][pos] != got[v][first]:
-                        report(LBL_AGAIN, src, session, pos, 'PYTHONHASHSEED=%d; answer #%d: %s; answer #%d: %s'
-                               % ((v[0], first, diff(got[v][first], got[v][pos])[0], pos,
-                                   diff(got[v][first], got[v][pos])[1])))
+                        bad = (LBL_AGAIN, 'answer #%d' % first, got[v][first])
+                    elif got[v][pos] != fresh:
+                        bad = (LBL_FRESH, 'fresh Script', fresh)
+                    if bad:
+                        a, b = diff(got[v][pos], bad[2])
+                        report(bad[0], src, session, pos, 'PYTHONHASHSEED=%d perturbation=%d; answer #%d: %s; %s: %s'
+                               % (v + (pos, a, bad[1], b)))
                         break
-                    if len(session) > 1 and (si, qi) in fresh_at:
-                        fresh = answers[(g, v)][fresh_at[(si, qi)]][0]
-                        if got[v][pos] != fresh:
-                            report(LBL_FRESH, src, session, pos, 'PYTHONHASHSEED=%d; this Script: %s; fresh Script: %s'
-                                   % ((v[0],) + diff(got[v][pos], fresh)))
-                            break
+                if bad:
+                    break                       # one report per session is enough
     nhand = sum(1 for s in srcs if not s.get('corpus'))
     return {'name': 'C16.seeds-heaps-histories', 'contract': 'C16.determinism',
             'evaluations': evaluations, 'distinct_nontrivial': len(nontrivial),
